@@ -232,8 +232,8 @@ def find_root(ctx, chk):
                     else:
                         todo.append(("f(xm)=0", {}, (a0, xm) if first else (xm, e0)))
                 else:
-                    todo.append(("f(xm)>0", {pos_c: TRUE}, (a0, xm)))
-                    todo.append(("f(xm)=0", {pos_c: FALSE}, (a0, xm) if first else (xm, e0)))
+                    todo.append(("f(xm)>0", {pos_c: TRUE, negate(pos_c): FALSE}, (a0, xm)))
+                    todo.append(("f(xm)=0", {pos_c: FALSE, negate(pos_c): TRUE}, (a0, xm) if first else (xm, e0)))
             else:
                 chk.unknown("R06.4", "loop body of _find_root branches on something other than the sign of f(xm): %s" % pc_text(o)[:160])
                 continue
